@@ -323,6 +323,21 @@ def gen_program(rng, ncomp=None):
     return {"comps": comps, "AND": AND, "cw": cw, "scan": scan, "uses_lt": g.uses_lt, "textonly": textonly}
 
 
+def corner_programs():
+    """fixed csvpaths that are in every run, whatever the generator draws: a bare variable holding 0 / 0.0 / "" (it exists),
+    the VALUE of counter(), and '@v = count.d(cond)' on lines that do not match"""
+    P = lambda comps, scan="1*", AND=True: {"comps": comps, "AND": AND, "cw": False, "scan": scan, "uses_lt": False, "textonly": False}
+    return [
+        P([("@v1 = 0", "(CAct (AssignN 1 (NLit 0)))"), ("@v1", "(CB (BVarSet 1))")]),
+        P([("@v3 = subtract(#n, #n)", "(CAct (AssignN 3 (NSub (NHdr 1) (NHdr 1))))"), ("@v3", "(CB (BVarSet 3))")]),
+        P([("@v1 = 0", "(CAct (AssignN 1 (NLit 0)))"), ("@v1", "(CB (BVarSet 1))"), ("no()", "(CB BNo)")], AND=False),
+        P([("counter.v4(1) == 2", "(CAgg (CounterEq 4 1 2))")]),
+        P([("counter.v4(5) == 10", "(CAgg (CounterEq 4 5 10))"), ("yes()", "(CB BYes)")], scan="1-4"),
+        P([("@v5 = count.d6(gt(#n, 2))", "(CAct (Agg (CountIf 5 6 (BCmp Gt (NHdr 1) (NLit 2)))))"), ("no()", "(CB BNo)")]),
+        P([("@v5 = count.d6(gt(#n, 2))", "(CAct (Agg (CountIf 5 6 (BCmp Gt (NHdr 1) (NLit 2)))))"), ("gt(#m, 3)", "(CB (BCmp Gt (NHdr 2) (NLit 3)))")], scan="2*"),
+    ]
+
+
 def gen_rows(rng, echo=False):
     """echo: some data rows repeat the header row's own t / u cells (values first seen on line 0 recur)"""
     rows = [HDR[:]]
